@@ -43,6 +43,22 @@ func DrawOp(t *rapid.T) OpDesc {
 	return d
 }
 
+// DrawSibling draws an operation that is, one time in three, a variation of
+// prev: same kind and receiver, a few parameters re-drawn. Siblings derived
+// from one value in slightly different ways are what makes frames share (and,
+// in a defective implementation, fight over) column and index storage.
+func DrawSibling(t *rapid.T, prev *OpDesc) OpDesc {
+	if prev == nil || rapid.IntRange(0, 2).Draw(t, "sibling") != 0 {
+		return DrawOp(t)
+	}
+	d := OpDesc{Kind: prev.Kind, Recv: prev.Recv, Arg: prev.Arg, N: append([]int{}, prev.N...)}
+	n := rapid.IntRange(1, 3).Draw(t, "nvary")
+	for i := 0; i < n; i++ {
+		d.N[rapid.IntRange(0, nParams-1).Draw(t, "vary")] = rapid.IntRange(0, 255).Draw(t, "p")
+	}
+	return d
+}
+
 // Outcome of one execution of an operation.
 type Outcome struct {
 	Canon string
@@ -63,6 +79,7 @@ var frameOps = []string{
 	"filter", "filter", "filter", "sort", "sort", "slice", "select", "drop", "copy",
 	"apply", "apply", "filteredapply", "eval", "eval", "rownums", "distinct", "groupby", "groupby",
 	"tocsv", "tojson", "string", "equals", "misc", "view", "view", "aggregate-direct",
+	"tojson", "tojson-fault", "tocsv-fault",
 }
 
 func pick(d OpDesc, i int) int { return d.N[i%len(d.N)] }
@@ -286,7 +303,7 @@ func resolveFrame(w *World, d OpDesc, recv *Member, client int) *Exec {
 	id := fmt.Sprintf("m%d", recv.ID)
 	kind := frameOps[d.Kind%len(frameOps)]
 	names := recv.Names
-	if len(names) == 0 && kind != "misc" && kind != "string" && kind != "tocsv" && kind != "tojson" && kind != "equals" {
+	if len(names) == 0 && kind != "misc" && kind != "string" && kind != "tocsv" && kind != "tojson" && kind != "equals" && kind != "tojson-fault" && kind != "tocsv-fault" {
 		kind = "misc"
 	}
 	anyCol := func(i int) string { return names[p(i)%len(names)] }
@@ -571,6 +588,21 @@ func resolveFrame(w *World, d OpDesc, recv *Member, client int) *Exec {
 			err := f.ToJSON(&buf)
 			return &Outcome{Canon: fmt.Sprintf("%v|%q", err, buf.String())}
 		}
+	case "tojson-fault", "tocsv-fault":
+		// a serialisation that fails part-way (the writer accepts `at` bytes):
+		// error paths are where per-call state is most easily left behind
+		at := p(0)*3 + p(1)%3
+		ex.Desc = fmt.Sprintf("%s.%s(writer fails at byte %d)", id, kind, at)
+		ex.Run = func() *Outcome {
+			w := &limitedWriter{room: at}
+			var err error
+			if kind == "tojson-fault" {
+				err = f.ToJSON(w)
+			} else {
+				err = f.ToCSV(w)
+			}
+			return &Outcome{Canon: fmt.Sprintf("err=%v|%q", err != nil, w.buf)}
+		}
 	case "string":
 		ex.Desc = id + ".String"
 		ex.Run = func() *Outcome { return &Outcome{Canon: f.String()} }
@@ -614,6 +646,26 @@ func resolveFrame(w *World, d OpDesc, recv *Member, client int) *Exec {
 		}
 	}
 	return ex
+}
+
+// limitedWriter accepts room bytes, then fails for good.
+type limitedWriter struct {
+	room int
+	buf  []byte
+}
+
+var errWriterFull = fmt.Errorf("fam: writer full")
+
+func (w *limitedWriter) Write(p []byte) (int, error) {
+	if len(p) <= w.room {
+		w.room -= len(p)
+		w.buf = append(w.buf, p...)
+		return len(p), nil
+	}
+	n := w.room
+	w.buf = append(w.buf, p[:n]...)
+	w.room = 0
+	return n, errWriterFull
 }
 
 func normKey(cell string) string {
